@@ -1,6 +1,6 @@
 From Coq Require Import NArith List Bool Arith.
 Import ListNotations.
-From WR Require Import Lib.Bits Mpq.Crypt Mpq.Archive Proofs.HashTable_proofs Proofs.FileLayout_proofs Proofs.Sectors_proofs Proofs.Sectors_example Props.C01.
+From WR Require Import Lib.Bits Mpq.Crypt Mpq.Archive Proofs.HashTable_proofs Proofs.FileLayout_proofs Proofs.Sectors_proofs Proofs.Sectors_example Proofs.Build_proofs Proofs.Build_example Props.C01.
 Open Scope N_scope.
 
 
@@ -47,3 +47,12 @@ Definition pin_9 : forall (compress : N -> list N -> option (list N)) (decompres
     write_file compress ssz crc f pos = Some (bytes, csize, flags) ->
     carries name a pos bytes csize (lenN (f_data f)) flags ssz ->
     read_file decompress a name = ROk (f_data f) := C01_file_roundtrip.
+Definition pin_10 : forall (compress : N -> list N -> option (list N)) (decompress : N -> list N -> N -> option (list N))
+         (c : cfg) (files : list file_spec) (bytes : list N),
+    (c_version c = 1 \/ c_version c = 2) -> c_shift c < 65536 ->
+    build compress c files = BOk bytes -> lenN bytes < M32 ->
+    Forall (file_ok compress decompress (sector_size (c_shift c))) (pending c files) ->
+    NoDup (map hkey (pending c files)) ->
+    (c_attrs c = 1 -> ~ In (hash_string s_attributes ht_name_a, hash_string s_attributes ht_name_b) (map hkey (pending c files))) ->
+    exists a, open bytes = Some a /\
+              forall f, In f (pending c files) -> read_file decompress a (f_name f) = ROk (f_data f) := C01_build_roundtrip.
